@@ -215,6 +215,43 @@ UNSUPPORTED_OPS = {"ed25519verify", "ed25519verify_bare", "ecdsa_verify", "ecdsa
                    "switch", "match", "pushints", "pushbytess"}
 
 
+U8_ARGS = {"substring": (0, 1), "extract": (0, 1), "dig": (0,), "cover": (0,), "uncover": (0,), "bury": (0,), "popn": (0,),
+           "dupn": (0,), "load": (0,), "store": (0,), "intc": (0,), "bytec": (0,), "arg": (0,), "txna": (1,), "gtxn": (0,),
+           "gtxna": (0, 2), "gtxnas": (0,), "gtxnsa": (1,), "itxna": (1,), "gitxn": (0,), "gitxna": (0, 2), "gitxnas": (0,),
+           "gload": (0, 1), "gloads": (0,), "gaid": (0,), "replace2": (0,), "proto": (0, 1)}
+I8_ARGS = {"frame_dig": (0,), "frame_bury": (0,)}
+
+
+def assemble_errors(prog):
+    """What the assembler would refuse before the program ever runs: immediates that do not fit their encoding.
+    (Cached on the program object.)"""
+    cached = getattr(prog, "_asm_errors", None)
+    if cached is not None:
+        return cached
+    errs = []
+    for I in prog.instrs:
+        pos = U8_ARGS.get(I.op)
+        lo, hi = 0, 255
+        if pos is None:
+            pos = I8_ARGS.get(I.op)
+            lo, hi = -128, 127
+        if pos is None:
+            continue
+        for k in pos:
+            if k >= len(I.args):
+                errs.append("line %d: %s expects an immediate #%d" % (I.line, I.op, k))
+                continue
+            try:
+                v = int(I.args[k])
+            except ValueError:
+                errs.append("line %d: %s immediate %r is not a number" % (I.line, I.op, I.args[k]))
+                continue
+            if not lo <= v <= hi:
+                errs.append("line %d: %s immediate %d does not fit its one-byte encoding" % (I.line, I.op, v))
+    prog._asm_errors = errs
+    return errs
+
+
 def run(prog: Program, ctx: Ctx, max_steps=200000, routine_info=None, sanitize=True, trace_calls=False):
     """Execute prog on ctx (ctx is mutated: logs, state, inner).  routine_info: callable label -> (nargs, nrets) or None."""
     stack = []
@@ -306,6 +343,9 @@ def run(prog: Program, ctx: Ctx, max_steps=200000, routine_info=None, sanitize=T
             if n < f.low:
                 f.low = n
 
+    asm = assemble_errors(prog)
+    if asm:
+        return finish("fail", None, "assemble: " + asm[0])
     try:
         while True:
             if pc >= len(ins):
